@@ -286,8 +286,8 @@ ILL = [('unhashable_key_seq', '{[a]: b}'), ('unhashable_key_map', '{{a: b}: c}')
        ('omap_item_empty_tagged', '!!omap [!!map {}]'), ('omap_item_null', '!!omap [~]'), ('pairs_item_null', '!!pairs [~]'), ('merge_list_empty_ok_control', '{<<: [], a: 1}')]
 
 
-def check_text(text, ctx, case, expected=None, model=None, want_error=False):
-    for lname in yamlapi.loaders(['SafeLoader', 'CSafeLoader']):
+def check_text(text, ctx, case, expected=None, model=None, want_error=False, loaders=('SafeLoader', 'CSafeLoader')):
+    for lname in yamlapi.loaders(list(loaders)):
         who = dict(case, loader=lname)
         try:
             st, got = core.guarded(lambda: yaml.load(text, Loader=getattr(yaml, lname)), 10)
@@ -352,7 +352,23 @@ def model_case(r, ctx, i):
     check_text(text, ctx, case, expected, top)
 
 
+# keys that only the full / unsafe loaders can build: a tuple is hashable only if its items are
+ILL_FULL = [('tuple_of_list_key', '? !!python/tuple [[a]]\n: v'), ('tuple_of_map_key', '{!!python/tuple [{a: b}]: v}'), ('tuple_of_set_key', '? !!python/tuple [!!set {a}]\n: v'),
+            ('nested_tuple_key', '? !!python/tuple [!!python/tuple [[a]]]\n: v'), ('tuple_of_list_set_member', '!!set\n? !!python/tuple [[a]]\n'),
+            ('tuple_key_is_fine_control', '? !!python/tuple [a, 1]\n: v'), ('tuple_alias_key', '- &t !!python/tuple [[a]]\n- {*t : v}')]
+
+
 def ill_case(r, ctx, i):
+    if i % 5 == 4:
+        name, frag = ILL_FULL[(i // 5) % len(ILL_FULL)]
+        wrap = r.choice(['%s', '- ok\n- %s']) if '\n' not in frag else '%s'
+        text = wrap % frag
+        want_error = not name.endswith('_control')
+        case = {'kind': 'ill', 'shape': name, 'text': text, 'want_error': want_error, 'loaders': ['FullLoader', 'CFullLoader', 'UnsafeLoader', 'CUnsafeLoader']}
+        ctx.crumb(case)
+        ctx.case(core.h64(text), True, ['ill:' + name])
+        check_text(text, ctx, case, want_error=want_error, loaders=case['loaders'])
+        return
     name, frag = ILL[i % len(ILL)]
     wrap = r.choice(['%s', '- ok\n- %s', 'k: %s', '- {a: 1}\n- [%s]'])
     if '\n' in frag:
@@ -384,7 +400,7 @@ def plan(tier, seed):
 def replay(case, ctx):
     ctx.case(core.h64(repr(case)), True)
     if case.get('kind') == 'ill':
-        check_text(case['text'], ctx, case, want_error=case['want_error'])
+        check_text(case['text'], ctx, case, want_error=case['want_error'], loaders=case.get('loaders') or ('SafeLoader', 'CSafeLoader'))
     else:
         # the model is not serialised: both back-ends must agree with each other and with the recorded expectation text
         res = {}
